@@ -28,6 +28,10 @@ checks["C05"] = dict(
    text="Proof that the slice and map set operations satisfy their membership characterisations for all operands (Minus, Intersection, Difference, Union, IsSubset, IsSuperset, MinusMapByKey, IsSubsetMapByKey, IsSupersetMapByKey; results that are sets are duplicate-free and ordered by the first operand where the code fixes an order), including the guarded corner cases for empty/nil operands, and that each generic function/method and its interface{} twin satisfy ONE shared contract text (Distinct, Exists, Keys, Values, Merge, SliceToMap, DuplicateMap, Minus, Intersection, IsSubset, IsSuperset, IsSubsetMapByKey, IsSupersetMapByKey and 17 Stream methods): both bodies are verified against the same characterisation, which determines the answer up to the order freedom it states.",
    note="The 'same answer' conclusion for twins rests on the shared contract determining the result (filter-like triple sub/mono/all; membership + no-duplicates for Union; exact boolean definitions): that determinacy argument is by inspection, not machine-checked. Precondition on Intersection/Difference: called with nil or at least one list. NOT yet covered: IntersectionMapByKey(+twin), DistinctRandom, the MapSet/StreamSet families and their twins. Trusted: as C03.",
    ref="5 C05")
+checks["C01"] = dict(
+   text="Proof, for all wrapped values (an abstract value sort with the reflect observers untyped/kind/nilref/elem), that IsNil(obj) is exactly 'untyped nil or nil pointer', that both constructors establish the well-formedness invariant isNil == absent(ref) && isPresent == !isNil (Just maps every absent value to None), and that under that invariant every observer of someDef and of None is the function of absent(ref) and ref the statement gives: IsPresent = !IsNil, Or, UnwrapInterface, Type (nil exactly when absent), ToString (\"<nil>\" when absent), Kind/IsPtr/IsValid/IsKind, FlatMap(f) = f(ref) (from which the monad laws follow), ToMaybe flattens exactly one level (a nested Maybe is returned as is, once), Clone/CloneTo return a well-formed Maybe. Every reflect call inside these methods (Value.IsNil, Elem, Interface, Type, Set, Type.Kind) and every type assertion carries its panic precondition as an obligation, so 'no observer panics' is proved for all v. The conversions' absent-case is C02's clause N.",
+   note="Trusted: the reflect axioms (Kind()==Invalid iff zero Value; IsNil/Elem/Interface/Type/Set panic conditions; Elem/Indirect of nil and non-nil pointers; New; pointer types determined by element types), govc's boxing model of interface values and type parameters (a value of static type T has dynamic type T unless nil interface), interface observers munwrap for MaybeDef values with the dispatch fact for someDef assumed in Clone, 'the zero value of a pointer-kinded type is absent' (assumed in Clone), fmt.Sprintf total. Let (callback exactly once) and Clone's 'distinct copy of the pointee' are NOT covered (no call-count ghost for Let yet; reflect copies are not modelled beyond freshness). The monad laws are consequences of FlatMap's contract and are not separately machine-checked lemmas.",
+   ref="5 C01")
 na = {
  "C07": "quantifies over producer/consumer/loader interleavings and includes liveness (nothing stranded, wake-ups not lost); no per-function contract expresses cross-goroutine exactly-once hand-over or eventual loading (DESIGN.md 6).",
  "C09": "every clause is about goroutine scheduling, timers and recovery from panics in other goroutines; the named defect is a lost wake-up (liveness under a fault) (DESIGN.md 6).",
